@@ -158,3 +158,13 @@ func verifInt32RoundTrip(x int32) (int32, bool) {
 func verifUint32RoundTrip(x uint32) (uint32, bool) {
 	return FromUint32(x).Uint32()
 }
+
+// verifCmpAbsOrder: CmpAbs in both directions and through a third operand; and against Cmp of the absolute values.
+func verifCmpAbsOrder(x, y, z Decimal) (xy, yx, yz, xz, ab CmpResult) {
+	xy = x.CmpAbs(y)
+	yx = y.CmpAbs(x)
+	yz = y.CmpAbs(z)
+	xz = x.CmpAbs(z)
+	ab = Abs(x).Cmp(Abs(y))
+	return xy, yx, yz, xz, ab
+}
